@@ -13,7 +13,7 @@ import sys
 import time
 
 VERIF = os.path.dirname(os.path.dirname(os.path.abspath(__file__)))
-LEAN = os.path.join(VERIF, "lean")
+LEAN = os.environ.get("VERIF_LEAN") or os.path.join(VERIF, "lean")         # (developer runs can point at a scratch copy of the Lean project)
 REPO = os.environ.get("YNCA_REPO", "/repo")
 EVID = os.environ.get("VERIF_EVIDENCE_DIR") or os.path.join(os.path.dirname(os.path.dirname(os.path.abspath(__file__))), "evidence")   # developer runs against scratch trees write elsewhere
 PY = "/venv/bin/python"
